@@ -4,6 +4,20 @@ Confirms a seeded change (applies to /repo HEAD; full suite passes in /tmp/confi
 runs the registered check(s) against it, and archives it under /verif/seeded/<name>/."""
 import json, os, shutil, subprocess, sys
 
+if sys.argv[1] == "--finish":
+    name = sys.argv[2]
+    out = os.path.join("/verif", "seeded", name)
+    meta = json.load(open(os.path.join(out, "meta.json")))
+    p = subprocess.run("JOBS=12 /verif/tools/confirm_suite.sh %s" % os.path.join(out, "patch.diff"), shell=True, stdout=subprocess.PIPE, stderr=subprocess.STDOUT)
+    o = p.stdout.decode("utf-8", "replace")
+    meta["suite"] = "pass" if p.returncode == 0 else "FAIL: " + o[-300:]
+    meta["ran"] = ["g++ demo on clean tree (exit %d) and with patch (exit %d)" % (meta["demo_exit_clean"], meta["demo_exit_changed"]),
+                   "tools/confirm_suite.sh: full unit_tests rebuilt with the patch in a scratch worktree, ctest: %s" % meta["suite"][:4],
+                   "python3 check.py <id> --tier quick with the patch applied to /repo, then git checkout -- ."]
+    meta["confirmed"] = (meta["demo_exit_clean"] == 0 and meta["demo_exit_changed"] != 0 and p.returncode == 0)
+    json.dump(meta, open(os.path.join(out, "meta.json"), "w"), indent=1)
+    print(name, meta["confirmed"], meta["suite"][:60])
+    sys.exit(0)
 name, prop, patch, demo, notes = sys.argv[1:6]
 checks = [prop]
 if "--checks" in sys.argv:
@@ -34,6 +48,19 @@ try:
         results[c] = {"exit": rcc, "lines": lines[:4]}
 finally:
     sh("git -C /repo checkout -- .")
+shutil.copy(patch, os.path.join(out, "patch.diff"))
+shutil.copy(demo, os.path.join(out, "demo.cpp"))
+if "--bg-suite" in sys.argv:
+    # the suite run only touches /tmp/confirm: queue it behind a lock and finish meta.json there
+    meta["demo_exit_clean"] = rc0
+    meta["demo_exit_changed"] = rc1
+    meta["demo_output_changed"] = o1[-600:]
+    meta["checks"] = results
+    meta["suite"] = "pending"
+    json.dump(meta, open(os.path.join(out, "meta.json"), "w"), indent=1)
+    subprocess.Popen("setsid nohup flock /tmp/confirm.lock python3 /verif/tools/keep_seed.py --finish %s > /tmp/keep_%s.log 2>&1 &" % (name, name), shell=True)
+    print(name, "repo stage done; suite queued", "demo:", rc0, rc1, {c: r["exit"] for c, r in results.items()})
+    sys.exit(0)
 rcs, os_ = sh("JOBS=14 /verif/tools/confirm_suite.sh %s" % patch)
 meta["demo_exit_clean"] = rc0
 meta["demo_exit_changed"] = rc1
